@@ -62,6 +62,7 @@ func hx(s string) string {
 // Case records one observation: function id, arguments (byte strings, written hex-encoded;
 // numbers are passed as decimal text) and the canonical observed result (plain ASCII, no tabs).
 func (o *Out) Case(fn string, result string, args ...string) {
+	result = resultEscaper.Replace(result) // one case per line, tab-separated
 	var b strings.Builder
 	b.WriteString(fn)
 	for _, a := range args {
@@ -177,3 +178,5 @@ func (o *Out) Raw(lines string) {
 		o.n++
 	}
 }
+
+var resultEscaper = strings.NewReplacer("\n", "\\n", "\r", "\\r", "\t", "\\t")
